@@ -89,7 +89,7 @@ func (e *Engine) prepareAxioms() (err error) {
 	st := &State{ghost: map[string]*Value{}, heap: map[string][]string{}, alloc: "0"}
 	for _, ax := range e.axioms {
 		env := &SpecEnv{e: e, st: st, cf: ax.CF, pkg: e.pkgForCF(ax.CF)}
-		e.axiomTerms = append(e.axiomTerms, axiomTerm{name: ax.Name, term: env.evalBool(ax.Expr), src: ax.Src})
+		e.axiomTerms = append(e.axiomTerms, axiomTerm{name: ax.Name, term: env.evalBool(ax.Expr), src: ax.Src, only: strings.Join(ax.Tags, ",")})
 		e.assumed["axiom "+ax.Name+": "+ax.Src] = true
 	}
 	return nil
@@ -369,16 +369,23 @@ func cmdCheck(args []string) int {
 	axiomsFor := func(o *Obligation) []axiomTerm {
 		if strings.HasPrefix(o.Func, "lemma.") {
 			name := strings.TrimPrefix(o.Func, "lemma.")
-			out := append([]axiomTerm{}, e.axiomTerms...)
+			out := e.axiomsOnly("lemma")
 			for _, u := range lemmaUses[name] {
 				out = append(out, lemmaAx[u])
 			}
 			return out
 		}
-		return append(append([]axiomTerm{}, e.axiomTerms...), allLemmaAx...)
+		out := e.axiomsOnly("vc")
+		for _, n := range e.funcLemmas[o.Func] {
+			if ax, ok := lemmaAx[n]; ok {
+				out = append(out, ax)
+			}
+		}
+		_ = allLemmaAx
+		return out
 	}
-	opt := solveOpts{timeout: 10, seed: seed, outDir: filepath.Join(*verif, "out", ps.ID+"-"+*tier),
-		cacheDir: filepath.Join(*verif, ".cache"), useCache: true, workers: 6, replay: ps.Replay, property: ps.ID}
+	opt := solveOpts{timeout: 20, seed: seed, outDir: filepath.Join(*verif, "out", ps.ID+"-"+*tier),
+		cacheDir: filepath.Join(*verif, ".cache"), useCache: true, workers: 5, replay: ps.Replay, property: ps.ID}
 	if *tier == "thorough" {
 		opt.timeout = 60
 		opt.useCache = false
@@ -480,11 +487,13 @@ func cmdCheck(args []string) int {
 		if data, err := os.ReadFile(filepath.Join(*verif, "baseline_obligations.json")); err == nil {
 			json.Unmarshal(data, &base)
 		}
-		var names []string
+		fam := map[string]bool{}
 		for _, o := range selected {
-			names = append(names, o.Name)
+			if hasTag(o.Tags, ps.ID) && (o.Kind == "ensures" || o.Kind == "pre" || o.Kind == "ghost-assert") || strings.HasPrefix(o.Kind, "lemma") {
+				fam[obligationFamily(o.Name)] = true
+			}
 		}
-		sort.Strings(names)
+		names := sortedStrings(fam)
 		base[ps.ID] = names
 		data, _ := json.MarshalIndent(base, "", " ")
 		os.WriteFile(filepath.Join(*verif, "baseline_obligations.json"), data, 0o644)
@@ -553,7 +562,31 @@ func matchKnown(known []KnownFinding, prop, obl string) *KnownFinding {
 	return nil
 }
 
-// checkBaseline compares the generated obligations with the committed list.
+// obligationFamily strips call-site ordinals and exit numbers from an obligation
+// name, so that adding or removing a call site or a return statement does not
+// look like a vanished proof; only a clause that is no longer checked anywhere does.
+func obligationFamily(name string) string {
+	out := name
+	if k := strings.Index(out, "@"); k >= 0 {
+		out = out[:k]
+	}
+	for {
+		k := strings.Index(out, "#")
+		if k < 0 {
+			break
+		}
+		j := k + 1
+		for j < len(out) && out[j] >= '0' && out[j] <= '9' {
+			j++
+		}
+		out = out[:k] + out[j:]
+	}
+	return out
+}
+
+// checkBaseline compares the clause families generated on this run with the committed
+// list: a property-tagged clause that was proved on the pinned tree and is not generated
+// at all any more is reported.
 func checkBaseline(verif, prop string, selected []*Obligation) []string {
 	data, err := os.ReadFile(filepath.Join(verif, "baseline_obligations.json"))
 	if err != nil {
@@ -565,7 +598,7 @@ func checkBaseline(verif, prop string, selected []*Obligation) []string {
 	}
 	have := map[string]bool{}
 	for _, o := range selected {
-		have[o.Name] = true
+		have[obligationFamily(o.Name)] = true
 	}
 	var missing []string
 	for _, n := range base[prop] {
@@ -641,7 +674,8 @@ func cmdDump(args []string) int {
 	verif := fs.String("verif", "/verif", "verification root")
 	solve := fs.Bool("solve", false, "run the solvers")
 	smt := fs.String("smt", "", "write the SMT query of the obligation whose name contains this string to stdout")
-	timeout := fs.Int("timeout", 10, "solver timeout")
+	timeout := fs.Int("timeout", 20, "solver timeout")
+	sliceDepth := fs.Int("slice", 0, "with --smt: assumption slice depth (0 = all)")
 	fs.Parse(args)
 	e := newEngine()
 	if err := e.load(*repo, *verif, pkgsFor(*pkgN)); err != nil {
@@ -694,19 +728,25 @@ func cmdDump(args []string) int {
 	}
 	axiomsFor := func(o *Obligation) []axiomTerm {
 		if strings.HasPrefix(o.Func, "lemma.") {
-			out := append([]axiomTerm{}, e.axiomTerms...)
+			out := e.axiomsOnly("lemma")
 			for _, u := range lemmaUses[strings.TrimPrefix(o.Func, "lemma.")] {
 				out = append(out, lemmaAxBy[u])
 			}
 			return out
 		}
-		return append(append([]axiomTerm{}, e.axiomTerms...), lemmaAx...)
+		out := e.axiomsOnly("vc")
+		for _, n := range e.funcLemmas[o.Func] {
+			if ax, ok := lemmaAxBy[n]; ok {
+				out = append(out, ax)
+			}
+		}
+		return out
 	}
 	if *smt != "" {
 		for _, o := range e.obls {
 			if strings.Contains(o.Name, *smt) {
 				fmt.Println("; " + o.Name)
-				fmt.Print(e.buildQuery(o, axiomsFor(o), false))
+				fmt.Print(e.buildQuerySliced(o, axiomsFor(o), false, *sliceDepth))
 				return 0
 			}
 		}
@@ -714,7 +754,7 @@ func cmdDump(args []string) int {
 		return 1
 	}
 	if *solve {
-		e.solveAll(e.obls, axiomsFor, solveOpts{timeout: *timeout, outDir: filepath.Join(*verif, "out", "dump"), workers: 6})
+		e.solveAll(e.obls, axiomsFor, solveOpts{timeout: *timeout, outDir: filepath.Join(*verif, "out", "dump"), workers: 5})
 	}
 	bad := 0
 	for _, o := range e.obls {
@@ -732,4 +772,16 @@ func cmdDump(args []string) int {
 		return 1
 	}
 	return 0
+}
+
+// axiomsOnly returns the axioms usable for a kind of obligation ("lemma" or "vc"):
+// untagged axioms are always included.
+func (e *Engine) axiomsOnly(kind string) []axiomTerm {
+	var out []axiomTerm
+	for _, a := range e.axiomTerms {
+		if a.only == "" || a.only == kind {
+			out = append(out, a)
+		}
+	}
+	return out
 }
